@@ -7,7 +7,9 @@ package conf
 import (
 	"context"
 
+	"git.defalsify.org/vise.git/db/mem"
 	"git.defalsify.org/vise.git/engine"
+	"git.defalsify.org/vise.git/persist"
 	"vharness/app"
 	"vharness/vrt"
 )
@@ -42,6 +44,31 @@ func Engine1(v *vrt.Ctx) {
 	v.Cover("conf/engine1")
 }
 
+// Engine2: the same history with a fresh engine and persister per request
+// over the memory store (exercises persist, the cbor stub and db/mem).
+func Engine2(v *vrt.Ctx) {
+	rs := introApp()
+	ctx := context.Background()
+	store := mem.NewMemDb()
+	store.Connect(ctx, "")
+	inputs := []string{"", "1", "0", "2", "11", "11", "22", "x", "0", "0"}
+	for _, in := range inputs {
+		cfg := engine.Config{Root: "root", OutputSize: 40, FlagCount: 4, SessionId: "s1"}
+		pe := persist.NewPersister(store)
+		en := engine.NewEngine(cfg, rs).WithPersister(pe)
+		cont, err := en.Exec(ctx, []byte(in))
+		v.Observe("cont", cont)
+		v.Observe("err", err)
+		w := &app.Sink{}
+		_, ferr := en.Flush(ctx, w)
+		v.Observe("ferr", ferr)
+		v.Observe("out", w.S)
+		v.Observe("finish", en.Finish(ctx))
+	}
+	v.Cover("conf/engine2")
+}
+
 var Harnesses = map[string]func(*vrt.Ctx){
 	"Engine1": Engine1,
+	"Engine2": Engine2,
 }
